@@ -49,7 +49,8 @@ Inductive op :=
 | OAddRowItems (n : nat)          (* t.AddRowItems(n items) *)
 | OAddSeparator                   (* t.AddSeparator() *)
 | OAddHeaders (n : nat)           (* t.AddHeaders(n items) *)
-| ORegister (o : owner) (tm : ctime) (g : target) (cb : nat).   (* t.RegisterPropertyCallback(o, tm, g, recorder cb) *)
+| ORegister (o : owner) (tm : ctime) (g : target) (cb : nat)    (* t.RegisterPropertyCallback(o, tm, g, recorder cb) *)
+| OOtherAddRow (r : nat).         (* other.AddRow(rows[r]): ANOTHER table takes the row too (rows are shared by pointer) *)
 
 (* l[i] = x for an index known to be in range (the callers check with idx first) *)
 Fixpoint set_nth {A} (l : list A) (i : nat) (x : A) : list A :=
